@@ -562,11 +562,16 @@ func evalC12(c *engine.Case) engine.Verdict {
 					if op != "sharedrf" || !strings.HasPrefix(got[gi][oi], "rf:ok") {
 						continue
 					}
-					n := uses[ownTok(gi*100+oi)]
+					// (used or not -- how OFTEN a converter runs within one call
+					// depends on the order in which the paths are walked, §11.3/8)
+					n := 0
+					if uses[ownTok(gi*100+oi)] > 0 {
+						n = 1
+					}
 					if !have {
 						first, have = n, true
 					} else if n != first {
-						v.Failf("goroutine %d op %d: the value handed to the shared redefined function was used %d time(s), another goroutine's value %d time(s) -- calls ran with each other's arguments", gi, oi, n, first)
+						v.Failf("goroutine %d op %d: the value handed to the shared redefined function was received by %d function(s), another goroutine's value by %d -- calls ran with each other's arguments", gi, oi, uses[ownTok(gi*100+oi)], first)
 						return v
 					}
 				}
